@@ -1,8 +1,8 @@
 """C11 — structural invariants survive any number of steps.
 
-Lean: DinoProofs/Properties/C11.lean (+ Lemmas/Invariants.lean, Lemmas/InvariantsDyn.lean) over the models
-Dino/Dynamics.lean (C04), Dino/Imex.lean (C06), Dino/Filters.lean (C15), Dino/Invariants.lean, and the coefficient
-tables DinoGen/Tableaux.lean regenerated from dinosaur/time_integration.py on every run.
+Lean: DinoProofs/Properties/C11.lean (+ Lemmas/Invariants*.lean) over the models Dino/Dynamics.lean (C04),
+Dino/DynamicsSW.lean (C05: the one shallow-water model), Dino/Imex.lean (C06), Dino/Filters.lean (C15), Dino/Invariants.lean,
+and the coefficient tables DinoGen/Tableaux.lean regenerated from dinosaur/time_integration.py on every run.
 
 Tie:
  (a) every named closure hypothesis of the theorems (`OpsClosed`, `Mean0`, linearity, `div(uv) = delta`, the l = 0
@@ -18,6 +18,7 @@ Tie:
      and at the clipped wavenumber, (zeta, delta)_00, shallow-water phi_00, sim_time = t0 + k dt, uniform tracer.
 """
 import math
+import os
 from fractions import Fraction
 
 import numpy as np
@@ -28,10 +29,26 @@ import dinoutil
 from gen import tableaux
 from props import c04_dyn as D
 
+_DRV = os.path.join(common.LEAN, 'Dino', 'InvariantsDrv.lean')
+# newer driver: the shallow-water operations run Dino.DynamicsSW (the model shared with C05/C10/C12), which computes the
+# density ratios itself from the densities
+SW_DENSITIES = os.path.exists(_DRV) and 'sw-densities' in open(_DRV).read()
+LEMMA_FILES = ['DinoProofs/Lemmas/Invariants.lean', 'DinoProofs/Lemmas/InvariantsDyn.lean',
+               'DinoProofs/Lemmas/InvariantsTM.lean', 'DinoProofs/Lemmas/InvariantsShape.lean',
+               'DinoProofs/Lemmas/InvariantsMean.lean', 'DinoProofs/Lemmas/InvariantsPE.lean',
+               'DinoProofs/Lemmas/InvariantsSW.lean', 'DinoProofs/Lemmas/InvariantsToy.lean',
+               'DinoProofs/Lemmas/InvariantsUniform.lean']
+
 TOL = 1e-9            # correspondence
 LIN_TOL = 1e-12       # linearity of the horizontal operators (relative)
 DIVUV_TOL = 1e-10     # div(uv) = delta after clipping (relative)
 INV00_TOL = 1e-12     # l = 0 divergence rows of the numerical inverse vs [I 0 0]
+MODE0_TOL = 1e-12     # (0,0) coefficient of the per-wavenumber product vs the l = 0 matrix applied to the (0,0) column
+# ceiling on the share of planned probe steps that are lost because a trajectory (random physical constants, dt not
+# tuned) became non-finite and was abandoned.  Measured on the unchanged tree (probe phases only): quick seeds 0..7:
+# 0/140 steps lost each (7 runs x 20 steps); thorough seed 0: 0/7400; thorough seed 1: 3 of 37 runs abandoned, 244/7400
+# = 3.3 % of the steps lost.  0.15 = one of the seven quick runs lost entirely = 4.5 x the worst measured share.
+ABANDON_CEILING = 0.15
 MOIST00_TOL = 1e-14   # (zeta, delta)_00 of the moist explicit tendencies, relative to the field scale
 TIME_TOL = 1e-12      # sim_time, relative to |t0| + k |dt|
 TRACER_TOL = 1e-11    # uniform tracer, relative to its value
@@ -125,13 +142,12 @@ def _hypotheses(ctx, E):
   if not ctx.quick:
     table += [(10, 'quadratic', 'real'), (10, 'linear', 'fast'), (21, 'quadratic', 'real'), (21, 'quadratic', 'fast'),
               (4, 'quadratic', 'real'), (12, 'cubic', 'real')]
-  worst = {}       # hypothesis -> (violation, grid)
-  divuv_ok = {}    # grid key -> bool
+  worst = {}       # hypothesis -> (violation, grid, exact, tol)
 
   def rec(h, val, gname, inp, exact=True, tol=0.0):
     ok = (val == 0.0) if exact else (val <= tol)
     if h not in worst or val > worst[h][0]:
-      worst[h] = (val, gname)
+      worst[h] = (val, gname, exact, tol)
     ctx.case((h, gname, ctx.seed, ctx.evaluations), nontrivial=True)
     ctx.expect(ok, f'hyp:{h}', f'closure hypothesis {h} fails on the real Grid ({gname}): violation {val:.3e}',
                dict(inp, hypothesis=h, violation=val))
@@ -165,6 +181,25 @@ def _hypotheses(ctx, E):
         rec('OpsClosed.laplacian_S', _off(grid.laplacian(J(s_x)), keep), gname, inp)
         a = rng.standard_normal((ms[1], n, n))
         rec('OpsClosed.lproj_S', _off(E.pe._vertical_matvec_per_wavenumber(a, J(s_x)), keep), gname, inp)
+        # Mode0 (the (0,0) coefficient sees only total wavenumber 0, whose Laplacian eigenvalue is zero): for ARBITRARY x
+        res = np.asarray(E.pe._vertical_matvec_per_wavenumber(a, J(any_x)))
+        rec('Mode0.lproj: (0,0) of the per-wavenumber product = (l = 0 matrix)(x_00)',
+            _rel(res[:, 0, 0], np.einsum('gh,h->g', a[0], any_x[:, 0, 0])), gname, inp, exact=False, tol=MODE0_TOL)
+        rec('Mode0.lapEig_zero', abs(float(np.asarray(grid.laplacian_eigenvalues)[0])), gname, inp)
+        # the unit mode `u` of the uniform-tracer theorems: a (0,0)-only field with to_nodal(u) = 1.  (It is to_modal(1), not
+        # the 8-digit literal _CONSTANT_NORMALIZATION_FACTOR, which is 1 - 5e-10 times it: a uniform tracer is any multiple)
+        unit = np.zeros(ms)
+        unit[0, 0] = float(np.asarray(grid.to_modal(jnp.ones(ns)))[0, 0])
+        rec('UniformOk.toNodal_unit: to_nodal of the (0,0)-only unit mode = 1',
+            float(np.abs(np.asarray(grid.to_nodal(J(unit))) - 1.0).max()), gname, inp, exact=False, tol=LIN_TOL)
+        # UniformOk.lproj_unit_*: a multiple of the unit mode lives in total wavenumber 0 only
+        qs = rng.standard_normal(n)
+        ru = np.asarray(E.pe._vertical_matvec_per_wavenumber(a, J(qs[:, None, None] * unit)))
+        sel00 = np.zeros(ms, dtype=bool)
+        sel00[0, 0] = True
+        rec('UniformOk.lproj_unit: the per-wavenumber product of unit-mode columns is (0,0)-only', _off(ru, sel00), gname, inp)
+        rec('UniformOk.lproj_unit: its (0,0) coefficient is the l = 0 matrix applied to the multiples',
+            _rel(ru[:, 0, 0], (a[0] @ qs) * unit[0, 0]), gname, inp, exact=False, tol=MODE0_TOL)
         z0 = any_x.copy()
         z0[..., 0, 0] = 0
         rec('Mean0.clip_mem', float(np.abs(np.asarray(grid.clip_wavenumbers(J(z0)))[..., 0, 0]).max()), gname, inp)
@@ -201,12 +236,10 @@ def _hypotheses(ctx, E):
         lhs = grid.clip_wavenumbers(E.pe.div_sec_lat(grid.to_nodal(u), grid.to_nodal(w), grid))
         rhs = grid.clip_wavenumbers(grid.to_modal(grid.to_nodal(J(delta))))
         dv = max(_rel(lhs, rhs), _rel(rhs, delta))
-        key = (M, deal, impl)
-        divuv_ok[key] = divuv_ok.get(key, True) and dv <= DIVUV_TOL
-        if deal != 'linear':
-          rec('div(uv) = delta and roundtrip, after clipping', dv, gname, inp, exact=False, tol=DIVUV_TOL)
-        else:
-          ctx.dist['hyp-divuv-linear-grid-' + ('holds' if dv <= DIVUV_TOL else 'fails')] += 1
+        # asserted on every truncation, linear grids included: no product of fields enters (u, v) -> div, so the
+        # identity does not depend on the de-aliasing rule (review finding 9)
+        rec('div(uv) = delta and roundtrip, after clipping', dv, gname, inp, exact=False, tol=DIVUV_TOL)
+        ctx.dist[f'hyp-divuv-{deal}-grid'] += 1
         # filters (state filters of filtering.py): S -> S exactly, l = 0 column and scalar leaves bitwise
         tree = dict(x=J(s_x), t=jnp.asarray(3.25), lsp=J(s_x[:1]))
         att = float(rng.uniform(1, 30))
@@ -221,12 +254,10 @@ def _hypotheses(ctx, E):
           rec(f'{fname}: scalar leaf untouched', abs(float(out['t']) - 3.25), gname, inp)
 
   for h in sorted(worst):
-    val, gname = worst[h]
-    exact = not (h.startswith('IsLinearMap') or h.startswith('div(uv)'))
-    ok = (val == 0.0) if exact else val <= (LIN_TOL if h.startswith('IsLinearMap') else DIVUV_TOL)
+    val, gname, exact, tol = worst[h]
+    ok = (val == 0.0) if exact else val <= tol
     ctx.obligation(f'hyp:{h} [{"exact" if exact else "to rounding"}, {len(table)} real grids]', 'hypothesis', ok,
                    f'worst violation {val:.3e} on {gname}')
-  return divuv_ok
 
 
 def _hyp_equations(ctx, E):
@@ -315,6 +346,13 @@ def _hyp_equations(ctx, E):
           rec('l = 0 divergence rows of inv(implicit matrix) = [I 0 0]', float(np.abs(top - want).max()),
               dict(inp, eta=eta), exact=False, tol=INV00_TOL)
           ctx.dist['inv00-' + ('exact' if (top == want).all() else 'rounded')] += 1
+          # Inv0Ok, the contract of pe_respects_mean00 on numpy.linalg.inv at total wavenumber 0: size and right inverse
+          m0, inv0 = np.asarray(m)[0], np.linalg.inv(m)[0]
+          rec('Inv0Ok: inv(implicit matrix)[l = 0] is (2n+1) x (2n+1)', 0.0 if inv0.shape == (2 * n + 1, 2 * n + 1) else 1.0,
+              dict(inp, eta=eta))
+          rec('Inv0Ok: M[0] inv(M)[0] = I (to rounding)',
+              float(np.abs(m0 @ inv0 - np.eye(2 * n + 1)).max() / max(1.0, np.abs(m0).max())), dict(inp, eta=eta), exact=False,
+              tol=INV00_TOL)
   for h in sorted(worst):
     val, gname, exact, tol = worst[h]
     ctx.obligation(f'hyp:{h} [{"exact" if exact else "to rounding"}]', 'hypothesis', (val == 0.0) if exact else val <= tol,
@@ -724,7 +762,8 @@ def _sw_setup(ctx, E, grid, n, orography):
 
 
 def _sw_tokens(eq, oro, ref):
-  return ' '.join([fmat(np.asarray(eq.density_ratios)), fbits(eq.physics_specs.angular_velocity),
+  first = fvec(np.asarray(eq.physics_specs.densities)) if SW_DENSITIES else fmat(np.asarray(eq.density_ratios))
+  return ' '.join([first, fbits(eq.physics_specs.angular_velocity),
                    '_' if oro is None else fvec(np.asarray(oro).ravel()), fvec(ref)])
 
 
@@ -744,7 +783,8 @@ def _sw_flat(s):
 
 
 def _corr_sw(ctx, E):
-  """the shallow-water equation set of Dino.Invariants.SW against shallow_water.py (+ a leapfrog trajectory)"""
+  """the shallow-water equation set (Dino.DynamicsSW when the driver has it, the former Dino.Invariants.SW otherwise) as the
+  `inv` driver runs it, against shallow_water.py (+ a leapfrog trajectory)"""
   rng, jnp, ti = ctx.rng, E.jnp, E.ti
   grid = E.grid(4)
   keep = _keep(grid)
@@ -842,7 +882,7 @@ def _exact_inverse_rows(E, etas, coords, tref, specs):
   return True
 
 
-def _probe_configs(ctx, divuv_ok):
+def _probe_configs(ctx):
   rng = ctx.rng
   quad = [(M, 'quadratic', impl) for M in (5, 7, 8, 10) for impl in ('real', 'fast')]
   stacks = [['exp'], ['exp', 'diff'], ['diff'], []]
@@ -865,14 +905,14 @@ def _probe_configs(ctx, divuv_ok):
     if not ctx.quick and i % 7 == 5:
       M, deal, impl = int(rng.choice([7, 9])), 'linear', 'real'
     out.append(dict(cls=cls, integrator=name, stack=stack, M=M, dealiasing=deal, impl=impl,
-                    layers=int(rng.integers(3, 7)), admissible=bool(i % 2 == 0) and deal != 'linear'))
+                    layers=int(rng.integers(3, 7)), admissible=bool(i % 2 == 0)))
   return out
 
 
-def _probes(ctx, E, cap, divuv_ok):
+def _probes(ctx, E, cap):
   rng, jnp, ti, jax = ctx.rng, E.jnp, E.ti, E.jax
   K = ctx.n(20, 200)
-  for ci, c in enumerate(_probe_configs(ctx, divuv_ok)):
+  for ci, c in enumerate(_probe_configs(ctx)):
     cls, name, stack = c['cls'], c['integrator'], c['stack']
     grid = E.grid(c['M'], c['dealiasing'], c['impl'])
     gname = _gname(c['M'], c['dealiasing'], c['impl'])
@@ -915,15 +955,18 @@ def _probes(ctx, E, cap, divuv_ok):
       scale0, zscale0 = scale, zscale
       ra = 'ra' in stack
       dry = cls in ('dry', 'time')
+      ctx.dist['probe-runs'] += 1
+      ctx.dist['probe-steps-planned'] += K
       for k in range(1, K + 1):
         u = step(u)
         cur = u[1] if leap else u
         tk = t0 + (k + 1) * dt if leap else t0 + k * dt
         lv = _np_leaves(cur)
         if not all(np.isfinite(v).all() for v in lv.values()):
-          ctx.notes.append(f'{key} on {gname}: non-finite state at step {k}; run abandoned (not a verdict)')
+          ctx.notes.append(f'{key} on {gname}: non-finite state at step {k}; run abandoned (counted in probe-coverage)')
           ctx.dist['probe-abandoned-nonfinite'] += 1
           break
+        ctx.dist['probe-steps-checked'] += 1
         sinp = dict(inp, step=k)
         ctx.case((key, ci, k, ctx.seed), nontrivial=True, sample=inp if (ci == 0 and k == 1) else None)
         # rounding errors are proportional to the magnitudes the step actually handled: on a growing (numerically
@@ -989,12 +1032,16 @@ def _probes_sw(ctx, E):
       p00 = p[:, 0, 0].copy()
       pscale = float(np.abs(p).max())
       ra = 'ra' in stack
+      ctx.dist['probe-runs'] += 1
+      ctx.dist['probe-steps-planned'] += K
       for k in range(1, K + 1):
         u = step(u)
         lv = _np_leaves(u[1])
         if not all(np.isfinite(v).all() for v in lv.values()):
-          ctx.notes.append(f'{key} on {gname}: non-finite state at step {k}; run abandoned (not a verdict)')
+          ctx.notes.append(f'{key} on {gname}: non-finite state at step {k}; run abandoned (counted in probe-coverage)')
+          ctx.dist['probe-abandoned-nonfinite'] += 1
           break
+        ctx.dist['probe-steps-checked'] += 1
         sinp = dict(inp, step=k)
         ctx.case((key, ci, k, ctx.seed), nontrivial=True)
         worst_off = max(_off(v, keep) for v in lv.values())
@@ -1014,7 +1061,18 @@ def _probes_sw(ctx, E):
 
 
 def run(ctx: common.Ctx):
+  import sys
+  import time
+  t_last = [time.time()]
+
+  def lap(label):
+    if os.environ.get('C11_TIMING'):
+      now = time.time()
+      print(f'[C11 timing] {label}: {now - t_last[0]:.1f}s', file=sys.stderr)
+      t_last[0] = now
+
   E = _Env()
+  lap('jax setup')
   cap = None
   try:
     cap, changed = tableaux.generate()
@@ -1023,24 +1081,46 @@ def run(ctx: common.Ctx):
   except Exception as e:  # pylint: disable=broad-except
     ctx.obligation('translator:DinoGen.Tableaux', 'translator', False, f'{type(e).__name__}: {e}')
   ctx.lean('DinoProofs.Properties.C11', 'C11.txt',
-           extra_files=['DinoProofs/Lemmas/Invariants.lean', 'DinoProofs/Lemmas/InvariantsDyn.lean',
-                        'Dino/Invariants.lean', 'Dino/InvariantsDrv.lean'],
+           extra_files=[f for f in LEMMA_FILES if os.path.exists(os.path.join(common.LEAN, f))] +
+           ['Dino/Invariants.lean', 'Dino/InvariantsDrv.lean'],
            gen_targets=['DinoGen.Tableaux'])
   if not ctx.quick:
     ctx.leanchecker(['DinoProofs.Properties.C11'])
+  lap('lean build + audit')
   cap = cap or {}
   ctx.notes.append(NOTE)
   ctx.assumptions.append('C11: horizontal operators enter the theorems through the named closure hypotheses OpsClosed / '
-                         'Mean0 / IsLinearMap / div(uv)=delta, validated on the real Grid on every run; numpy.linalg.inv '
-                         'is external (its l = 0 block is validated to 1e-12); state filters enter T11.2 through FilterOk '
-                         '(leafwise content proved on Dino.Filters: filterLeaf_keeps_zeros, filterLeaf_fixes_mean, '
-                         'filterTree_keeps_scalars)')
-  divuv_ok = _hypotheses(ctx, E)
+                         'Mean0 / Mode0 / IsLinearMap / div(uv)=delta, validated on the real Grid on every run (div(uv)=delta '
+                         'on linear grids as well); numpy.linalg.inv is external: the structural theorems hold for ANY '
+                         'matrices with 2n+1 rows (InvShaped), (zeta,delta)_00 conservation needs the l = 0 matrix to be a '
+                         'right inverse (Inv0Ok, validated to 1e-12); FilterOk is PROVED for filtering._make_filter_fn lifted '
+                         'to the spectral carrier (filterPE / filterSW: any 1-D scaling for the clock and S, scalings equal to '
+                         'one at l = 0 for the (0,0) coefficients: expScaling_zero for cutoff >= 0, diffScaling_zero for '
+                         'order >= 1); the model trajectories compared with step_with_filters run exactly these filters; '
+                         'the history theorems start from records with n levels carrying the tracer keys the class looks up '
+                         '(moist: specific_humidity; cloud: + the two condensate keys)')
+  _hypotheses(ctx, E)
+  lap('hypotheses')
   _hyp_equations(ctx, E)
+  lap('hyp equations')
   _corr_clock(ctx, E, cap)
+  lap('corr clock')
   _corr_check(ctx, E)
+  lap('corr check')
   _corr_sw(ctx, E)
+  lap('corr sw')
   _corr_traj(ctx, E, cap)
-  _probes(ctx, E, cap, divuv_ok)
+  lap('corr traj')
+  _probes(ctx, E, cap)
+  lap('probes')
   _probes_sw(ctx, E)
+  lap('probes sw')
+  # review finding 8: a trajectory that becomes non-finite (random physical constants, dt not tuned) is abandoned; the
+  # share of planned k-step coverage lost that way is an obligation with a ceiling, not a silent note
+  planned, checked = ctx.dist['probe-steps-planned'], ctx.dist['probe-steps-checked']
+  lost = 0.0 if planned == 0 else 1.0 - checked / planned
+  ctx.obligation(f'probe-coverage: share of planned trajectory steps lost to abandoned (non-finite) runs <= {ABANDON_CEILING}',
+                 'coverage', planned > 0 and lost <= ABANDON_CEILING,
+                 f'{checked}/{planned} planned steps checked over {ctx.dist["probe-runs"]} runs; '
+                 f'{ctx.dist["probe-abandoned-nonfinite"]} runs abandoned; lost share {lost:.3f}')
   return ctx.finish(RULE)
